@@ -476,6 +476,16 @@ void FileManager::generateGenericProperty(const std::string& _entity_t, const st
 template<class MeshT>
 void FileManager::writeStream(std::ostream &_ostream, const MeshT &_mesh) const
 {
+    if (_mesh.needs_garbage_collection()) {
+        // Deleted entities are still counted by n_vertices() etc. but skipped by the
+        // iterators below, the file would be inconsistent.
+        if (verbosity_level_ >= 1) {
+            std::cerr << "Error: Cannot write a mesh with pending deletions, run garbage collection first!" << std::endl;
+        }
+        _ostream.setstate(std::ios::failbit);
+        return;
+    }
+
     _ostream.imbue(std::locale::classic());
     // Write header
     _ostream << "OVM ASCII" << std::endl;
